@@ -209,8 +209,8 @@ static struct lp_msg *new_msg(simtime_t t, uint32_t flags, uint32_t type)
 					(f_ > 3 && (f_ & 3U) == MSG_FLAG_PROCESSED));                                  \
 			else if(kind[k_] == 1)                                                                         \
 				VASSUME(f_ == 0 || f_ == MSG_FLAG_PROCESSED);                                          \
-			else                                                                                           \
-				VASSUME(f_ > 3 && (f_ & 3U) == 0);                                                     \
+			else /* copy of a remotely sent event: id | GVT colour in bit 0 (gvt_remote_msg_send) */        \
+				VASSUME(f_ > 3 && (f_ & 2U) == 0);                                                     \
 			struct lp_msg *m_ = new_msg(in_t[k_], f_, in_type[k_]);                                        \
 			lps[0].p.p_msgs.items[k_] = kind[k_] == 0 ? m_ : kind[k_] == 1 ? mark_msg_sent(m_) : mark_msg_remote(m_); \
 		}                                                                                                      \
